@@ -19,7 +19,7 @@ import (
 
 	"verif/harness/fsx"
 	"verif/harness/gen"
-	"verif/harness/model"
+	"verif/harness/orc"
 	"verif/harness/vt"
 )
 
@@ -110,37 +110,10 @@ func genCase(store string) func(t *rapid.T) Case {
 	}
 }
 
-type predFinder interface {
-	Predecessors(ctx context.Context, node ocispec.Descriptor) ([]ocispec.Descriptor, error)
-}
+type predFinder = orc.PredFinder
 
-// checkPreds compares Predecessors of every node with the ground truth.
 func checkPreds(ctx context.Context, pf predFinder, d *gen.DAG, stored map[int]bool, when string) *vt.Fail {
-	parents := d.Parents()
-	for _, id := range d.CanonIDs() {
-		n := d.Nodes[id]
-		got, err := pf.Predecessors(ctx, n.Desc)
-		if err != nil {
-			return vt.Failf("C07/predecessors-error", "%s: Predecessors(node %d): %v", when, id, err)
-		}
-		var want []string
-		for _, p := range parents[id] {
-			if stored[p] {
-				want = append(want, gen.TripleKey(d.Nodes[p].Desc))
-			}
-		}
-		var have []string
-		for _, g := range got {
-			have = append(have, gen.TripleKey(g))
-		}
-		sort.Strings(want)
-		sort.Strings(have)
-		if fmt.Sprint(want) != fmt.Sprint(have) {
-			kind := "C07/predecessors-mismatch"
-			return vt.Failf(kind, "%s: Predecessors(node %d %s, stored=%v): got %v want %v", when, id, n.Spec.Kind, stored[id], have, want)
-		}
-	}
-	return nil
+	return orc.CheckPreds(ctx, pf, d, stored, "C07", when)
 }
 
 func runCase(c Case) (res vt.Result, fail *vt.Fail) {
@@ -175,7 +148,7 @@ func runCase(c Case) (res vt.Result, fail *vt.Fail) {
 	}
 
 	// push phase
-	m := model.NewOCI(d)
+	m := &storedSet{Stored: map[int]bool{}}
 	push := func(id int) error {
 		err := gen.PushNode(ctx, store, d.Nodes[id])
 		if c.Store == "file" && (errors.Is(err, errdef.ErrAlreadyExists) || errors.Is(err, file.ErrDuplicateName)) {
@@ -215,7 +188,10 @@ func runCase(c Case) (res vt.Result, fail *vt.Fail) {
 		}
 	}
 	for _, id := range c.Order {
-		m.Push(id)
+		m.Stored[id] = true
+	}
+	if f := m.refresh(ctx, store, d, "after push phase"); f != nil {
+		return res, f
 	}
 	if f := checkPreds(ctx, store, d, m.Stored, "after push phase"); f != nil {
 		return res, f
@@ -264,7 +240,6 @@ func runCase(c Case) (res vt.Result, fail *vt.Fail) {
 		if err := ociStore.Tag(ctx, d.Nodes[id].Desc, ref); err != nil {
 			return res, vt.Failf("C07/tag-failed", "tag node %d: %v", id, err)
 		}
-		m.Tag(id, ref)
 	}
 
 	var current predFinder = ociStore
@@ -282,23 +257,10 @@ func runCase(c Case) (res vt.Result, fail *vt.Fail) {
 			if err := gen.PushNode(ctx, ociStore, d.Nodes[op.N]); err != nil {
 				return res, vt.Failf("C07/push-failed", "%s: %v", when, err)
 			}
-			m.Push(op.N)
+			m.Stored[op.N] = true
 		case "delete":
 			if !live || !m.Stored[op.N] {
 				continue
-			}
-			var judged bool
-			if c.AutoGC {
-				judged = m.DeleteAutoGC(op.N)
-			} else {
-				m.DeletePlain(op.N)
-				judged = true
-			}
-			if !judged {
-				// outcome not fixed by the statement (see DESIGN C09 narrowings):
-				// stop the history here, counted.
-				res.Classes = append(res.Classes, "stopped-at-unjudged-delete")
-				return res, nil
 			}
 			finished, dump := vt.Watch(watchdog, func() {
 				if err := ociStore.Delete(ctx, d.Nodes[op.N].Desc); err != nil {
@@ -320,11 +282,6 @@ func runCase(c Case) (res vt.Result, fail *vt.Fail) {
 			if !live {
 				continue
 			}
-			if m.GCWouldBeUnjudged() {
-				res.Classes = append(res.Classes, "stopped-at-unjudged-gc")
-				return res, nil
-			}
-			m.GC()
 			finished, dump := vt.Watch(watchdog, func() {
 				if err := ociStore.GC(ctx); err != nil {
 					fail = vt.Failf("C07/gc-failed", "%s: %v", when, err)
@@ -348,14 +305,17 @@ func runCase(c Case) (res vt.Result, fail *vt.Fail) {
 			ociStore = s
 			current = s
 			live = true
-			m.Reopen()
 			res.Classes = append(res.Classes, "reopen-new")
 		case "reopen-fs":
 			s, err := oci.NewFromFS(ctx, os.DirFS(filepath.Join(dir, "layout")))
 			if err != nil {
 				return res, vt.Failf("C07/reopen-failed", "%s: %v", when, err)
 			}
-			if f := checkPreds(ctx, s, d, m.ReopenedStored(), when+" [fs view]"); f != nil {
+			vs, f := existsSet(ctx, s, d, when)
+			if f != nil {
+				return res, f
+			}
+			if f := checkPreds(ctx, s, d, vs, when+" [fs view]"); f != nil {
 				return res, f
 			}
 			res.Classes = append(res.Classes, "reopen-fs")
@@ -369,15 +329,54 @@ func runCase(c Case) (res vt.Result, fail *vt.Fail) {
 			if err != nil {
 				return res, vt.Failf("C07/reopen-failed", "%s: %v", when, err)
 			}
-			if f := checkPreds(ctx, s, d, m.ReopenedStored(), when+" [tar view]"); f != nil {
+			vs, f := existsSet(ctx, s, d, when)
+			if f != nil {
+				return res, f
+			}
+			if f := checkPreds(ctx, s, d, vs, when+" [tar view]"); f != nil {
 				return res, f
 			}
 			res.Classes = append(res.Classes, "reopen-tar-"+op.Fmt)
 			continue
+		}
+		if f := m.refresh(ctx, ociStore, d, when); f != nil {
+			return res, f
 		}
 		if f := checkPreds(ctx, current, d, m.Stored, when); f != nil {
 			return res, f
 		}
 	}
 	return res, nil
+}
+
+// storedSet is the ground truth "which nodes are stored", taken from the store's own
+// Exists (a storage-level question that does not involve the predecessor index), so
+// that C07 judges Predecessors only and leaves what Delete/GC remove to C09.
+type storedSet struct{ Stored map[int]bool }
+
+type exister interface {
+	Exists(ctx context.Context, target ocispec.Descriptor) (bool, error)
+}
+
+func existsSet(ctx context.Context, s exister, d *gen.DAG, when string) (map[int]bool, *vt.Fail) {
+	out := map[int]bool{}
+	for _, id := range d.CanonIDs() {
+		ok, err := s.Exists(ctx, d.Nodes[id].Desc)
+		if err != nil {
+			return nil, vt.Failf("harness/exists", "%s: Exists(node %d): %v", when, id, err)
+		}
+		if ok {
+			out[id] = true
+		}
+	}
+	return out, nil
+}
+
+func (m *storedSet) refresh(ctx context.Context, s exister, d *gen.DAG, when string) *vt.Fail {
+	set, f := existsSet(ctx, s, d, when)
+	if f != nil {
+		return f
+	}
+	m.Stored = set
+	return nil
 }
